@@ -1,0 +1,10 @@
+//go:build !verif
+
+package pool
+
+// Verification hooks (build tag "verif"). Disabled: these are no-ops that the
+// compiler inlines away.
+
+func verifGo(fn func()) bool        { return false }
+func verifGetBuf(size int) Buffer   { return nil }
+func verifReleaseBuf(b Buffer) bool { return false }
